@@ -55,7 +55,7 @@ var (
 // ---- case -----------------------------------------------------------------------------------------------
 
 type c16Op struct {
-	K     string `json:"k"` // stake|unstake|delegate|undelegate|redelegate|setlock|deactivate|mkvault|params
+	K     string `json:"k"` // stake|unstake|delegate|undelegate|redelegate|setlock|deactivate|mkvault|params|reimport
 	A     int    `json:"a,omitempty"`
 	V     int    `json:"v,omitempty"`     // validator (source); late-bound mod #validators
 	W     int    `json:"w,omitempty"`     // destination validator
@@ -171,7 +171,7 @@ func genC16(rt *rapid.T) c16Case {
 	nops := rapid.IntRange(12, 50).Draw(rt, "nops")
 	for i := 0; i < nops; i++ {
 		a := acct()
-		switch gen.Pick(rt, "opw", 10, 16, 9, 16, 8, 16, 3, 1, 4, 9, 6) {
+		switch gen.Pick(rt, "opw", 10, 16, 9, 16, 8, 16, 3, 1, 4, 9, 6, 3) {
 		case 0:
 			c.Ops = append(c.Ops, stake(a))
 		case 1:
@@ -190,6 +190,9 @@ func genC16(rt *rapid.T) c16Case {
 			c.Ops = append(c.Ops, c16Op{K: "mkvault", Vault: vault()})
 		case 8:
 			c.Ops = append(c.Ops, c16Op{K: "params", Set: gen.Pick(rt, "pset", 3, 5, 1, 2)})
+		case 11:
+			// genesis export -> new application instance initialised from the exported document
+			c.Ops = append(c.Ops, c16Op{K: "reimport"})
 		case 10:
 			// scenario: the total power falls below an existing lock through a path no hook guards (governance removes
 			// a restaked denom from AllowedDenoms), then the same vault updates that lock to a value in
@@ -205,6 +208,9 @@ func genC16(rt *rapid.T) c16Case {
 				c.Ops = append(c.Ops, setlock(a, v2, gen.OneOf(rt, "sd-l2m", "half", "total", "totalminus1")))
 			}
 			c.Ops = append(c.Ops, c16Op{K: "params", Set: gen.OneOf(rt, "sd-set", 0, 0, 0, 2)}) // uatom no longer counts
+			if gen.Chance(rt, "sd-reimp", 1, 4) {
+				c.Ops = append(c.Ops, c16Op{K: "reimport"}) // round trip while the power is below the lock
+			}
 			for n := gen.Range(rt, "sd-n", 1, 2); n > 0; n-- {
 				ro := setlock(a, v1, gen.OneOf(rt, "sd-re", c16RelockModes...))
 				ro.Tx = lo.Tx
@@ -220,10 +226,17 @@ func genC16(rt *rapid.T) c16Case {
 			v2 := (v1 + 1 + gen.Uniform(rt, "v2", len(c16Vaults)-1)) % len(c16Vaults)
 			c.Ops = append(c.Ops, setlock(a, v1, gen.OneOf(rt, "sc-l1", "half", "totalminus1", "raw", "total")))
 			c.Ops = append(c.Ops, setlock(a, v2, gen.OneOf(rt, "sc-l2", "total", "totalminus1", "half", "total")))
+			reimportAt := gen.Pick(rt, "sc-reimp", 6, 2, 1) // 0 none, 1 between the locks and the withdrawals, 2 after the deactivation
+			if reimportAt == 1 {
+				c.Ops = append(c.Ops, c16Op{K: "reimport"})
+			}
 			c.Ops = append(c.Ops, withdraw(a, "below"))
 			c.Ops = append(c.Ops, withdraw(a, gen.OneOf(rt, "sc-w2", "tolock", "below", "all")))
 			if gen.Chance(rt, "sc-deact", 1, 3) {
 				c.Ops = append(c.Ops, c16Op{K: "deactivate", Vault: gen.OneOf(rt, "sc-dv", v1, v2)})
+				if reimportAt == 2 {
+					c.Ops = append(c.Ops, c16Op{K: "reimport"})
+				}
 				c.Ops = append(c.Ops, withdraw(a, gen.OneOf(rt, "sc-w3", c16BoundaryModes2...)))
 			}
 		}
@@ -534,6 +547,8 @@ func runC16(c c16Case) *pbt.Verdict {
 	classes := map[string]bool{}
 	class := func(s string) { classes[s] = true }
 	twoLocksDiff, boundaryReject := false, false
+	reimported := false         // at least one genesis export/import round trip happened
+	syncSig := "C16/model-sync" // signature of "chain state differs from the model" (another one right after a re-import)
 
 	// ---- state checks after every step ----
 	checkState := func(o *c16Obs, where string) bool {
@@ -584,18 +599,18 @@ func runC16(c c16Case) *pbt.Verdict {
 		// (4) the model is still an exact image of the chain (otherwise the oracle would be blind)
 		for key, act := range o.vaults {
 			if !m.vaultExists[key] || m.vaultActive[key] != act {
-				v.Failf("C16/model-sync", "%s: vault %q active=%v on chain, model exists=%v active=%v", where, key, act, m.vaultExists[key], m.vaultActive[key])
+				v.Failf(syncSig, "%s: vault %q active=%v on chain, model exists=%v active=%v", where, key, act, m.vaultExists[key], m.vaultActive[key])
 				return false
 			}
 		}
 		for _, key := range c16Vaults {
 			if _, ok := o.vaults[key]; m.vaultExists[key] && !ok {
-				v.Failf("C16/model-sync", "%s: vault %q missing on chain", where, key)
+				v.Failf(syncSig, "%s: vault %q missing on chain", where, key)
 				return false
 			}
 		}
 		if strings.Join(o.allowed, ",") != strings.Join(m.allowed, ",") {
-			v.Failf("C16/model-sync", "%s: allowed denoms %v, model %v", where, o.allowed, m.allowed)
+			v.Failf(syncSig, "%s: allowed denoms %v, model %v", where, o.allowed, m.allowed)
 			return false
 		}
 		nlocks := 0
@@ -603,7 +618,7 @@ func runC16(c c16Case) *pbt.Verdict {
 			nlocks += len(m.locks[a])
 		}
 		if nlocks != len(o.locks) {
-			v.Failf("C16/model-sync", "%s: %d locks on chain, model has %d", where, len(o.locks), nlocks)
+			v.Failf(syncSig, "%s: %d locks on chain, model has %d", where, len(o.locks), nlocks)
 			return false
 		}
 		for _, l := range o.locks {
@@ -616,7 +631,7 @@ func runC16(c c16Case) *pbt.Verdict {
 				}
 			}
 			if !found {
-				v.Failf("C16/model-sync", "%s: lock %v on chain is not the model's", where, l)
+				v.Failf(syncSig, "%s: lock %v on chain is not the model's", where, l)
 				return false
 			}
 		}
@@ -628,23 +643,23 @@ func runC16(c c16Case) *pbt.Verdict {
 			}
 			for _, d := range c16Denoms {
 				if st.AmountOf(d).BigInt().Cmp(m.stake[a][d]) != 0 {
-					v.Failf("C16/model-sync", "%s: account %d stake %s, model %s%s", where, a, st, m.stake[a][d], d)
+					v.Failf(syncSig, "%s: account %d stake %s, model %s%s", where, a, st, m.stake[a][d], d)
 					return false
 				}
 				if o.bal[a].AmountOf(d).BigInt().Cmp(m.bal[a][d]) != 0 {
-					v.Failf("C16/model-sync", "%s: account %d balance %s, model %s%s", where, a, o.bal[a], m.bal[a][d], d)
+					v.Failf(syncSig, "%s: account %d balance %s, model %s%s", where, a, o.bal[a], m.bal[a][d], d)
 					return false
 				}
 			}
 			for j := 0; j < nval; j++ {
 				if o.del[a][j].Cmp(m.del[a][j]) != 0 {
-					v.Failf("C16/model-sync", "%s: delegation %d->%d is %s, model %s", where, a, j, o.del[a][j], m.del[a][j])
+					v.Failf(syncSig, "%s: delegation %d->%d is %s, model %s", where, a, j, o.del[a][j], m.del[a][j])
 					return false
 				}
 			}
 		}
 		if nstakes != o.stakeN {
-			v.Failf("C16/model-sync", "%s: %d stake records, %d belong to known accounts", where, o.stakeN, nstakes)
+			v.Failf(syncSig, "%s: %d stake records, %d belong to known accounts", where, o.stakeN, nstakes)
 			return false
 		}
 		// statistics on the reached state
@@ -723,6 +738,9 @@ func runC16(c c16Case) *pbt.Verdict {
 			}
 			if act != nil && act.Sign() > 0 && minPower.Cmp(act) == 0 {
 				class("boundary-accept")
+				if reimported {
+					class("boundary-accept-after-reimport")
+				}
 			}
 			if de := m.maxLock(a, false); de != nil && leave.Cmp(de) < 0 {
 				class("withdraw-below-deactivated-lock")
@@ -742,6 +760,9 @@ func runC16(c c16Case) *pbt.Verdict {
 			return true
 		}
 		class("reject-" + kind)
+		if reimported {
+			class("withdraw-below-lock-rejected-after-reimport")
+		}
 		if full {
 			class("reject-full-removal")
 		}
@@ -752,6 +773,9 @@ func runC16(c c16Case) *pbt.Verdict {
 		} else if c16Add(minPower, c16One).Cmp(act) == 0 {
 			boundaryReject = true
 			class("boundary-reject-" + kind)
+			if reimported {
+				class("boundary-reject-after-reimport")
+			}
 			if act.Cmp(c16Two63) >= 0 {
 				class("boundary-reject-lock>=2^63")
 			}
@@ -995,7 +1019,7 @@ func runC16(c c16Case) *pbt.Verdict {
 				}
 				if out.ok {
 					if x.Cmp(have) > 0 {
-						v.Failf("C16/model-sync", "%s: undelegated %s out of %s", where, x, have)
+						v.Failf(syncSig, "%s: undelegated %s out of %s", where, x, have)
 						return v
 					}
 					m.del[a][j].Sub(m.del[a][j], x)
@@ -1019,7 +1043,7 @@ func runC16(c c16Case) *pbt.Verdict {
 				}
 				if out.ok {
 					if x.Cmp(have) > 0 || w == j {
-						v.Failf("C16/model-sync", "%s: redelegated %s out of %s (src %d dst %d)", where, x, have, j, w)
+						v.Failf(syncSig, "%s: redelegated %s out of %s (src %d dst %d)", where, x, have, j, w)
 						return v
 					}
 					m.del[a][j].Sub(m.del[a][j], x)
@@ -1199,8 +1223,14 @@ func runC16(c c16Case) *pbt.Verdict {
 				switch {
 				case x.Cmp(p) > 0:
 					class("lock-rejected-above-power")
+					if reimported {
+						class("lock-rejected-above-power-after-reimport")
+					}
 				case !wasActive:
 					class("lock-rejected-inactive-vault")
+					if reimported {
+						class("lock-rejected-inactive-vault-after-reimport")
+					}
 				case x.Cmp(c16MaxU64) > 0:
 					class("lock-rejected-not-uint64")
 					v.Count("converse_setlock_rejected", 1)
@@ -1271,6 +1301,46 @@ func runC16(c c16Case) *pbt.Verdict {
 				v.Count("params_proposal_not_passed", 1)
 			}
 			if !finish(where, passed) {
+				return v
+			}
+
+		case "reimport":
+			// The state is exported with the application's own genesis export, a NEW application instance is
+			// initialised from the exported document and continues the chain with one empty block. x/restake exports
+			// params, vaults, locks and stakes (the by-power index is rebuilt by InitGenesis), staking/bank/auth export
+			// completely, so the whole model must still be an exact image of the chain and every state invariant holds.
+			where = fmt.Sprintf("op %d reimport", i)
+			activeLock, deactLock, below := false, false, false
+			for b := 0; b < nacc; b++ {
+				if l := m.maxLock(b, true); l != nil {
+					activeLock = activeLock || l.Sign() > 0
+					below = below || m.power(b).Cmp(l) < 0
+				}
+				if l := m.maxLock(b, false); l != nil {
+					deactLock = true
+				}
+			}
+			if _, err := ch.Reimport(time.Second); err != nil {
+				v.Failf("C16/genesis-reimport-failed", "%s: %v", where, err)
+				return v
+			}
+			reimported = true
+			v.Count("genesis_reimports", 1)
+			class("genesis-reimport")
+			if activeLock {
+				class("genesis-reimport-with-active-lock")
+				v.Count("genesis_reimports_with_active_lock", 1)
+			}
+			if deactLock {
+				class("genesis-reimport-with-lock-in-deactivated-vault")
+			}
+			if below {
+				class("genesis-reimport-while-power-below-lock")
+			}
+			syncSig = "C16/reimport-mismatch"
+			alive := finish(where, true)
+			syncSig = "C16/model-sync"
+			if !alive {
 				return v
 			}
 
